@@ -92,6 +92,12 @@ def build_c(ctx):
     if not ok:
         raise RuntimeError("c11_trxcon_dump does not compile:\n%s" % log[-3000:])
     bins["c11_trxcon_dump"] = path
+    # the real l1sched_configure_ts() (sched_trx.c) with the real tables; talloc from the vendored libosmocore
+    ok, path, log = common.cc("c11_trxcon_cfg", [os.path.join(ch, "c11_trxcon_cfg.c"), os.path.join(p["lib"], "src/talloc.c")],
+                              flags=tflags.replace("c11_compat.h", "c11_trx_compat.h") + " -I%s/stubs/a/b -I%s/stubs/c11" % (ch, ch))
+    if not ok:
+        raise RuntimeError("c11_trxcon_cfg does not compile:\n%s" % log[-3000:])
+    bins["c11_trxcon_cfg"] = path
     return bins
 
 
@@ -531,6 +537,42 @@ def run(ctx):
         for k in idx:
             ctx.nontrivial(("lookup", lres[k][0], lp[k][1] >= 8))
         ctx.sample(dict(op="l1sched_mframe_layout", config=lp[3 * 8 + 5][0], tn=lp[3 * 8 + 5][1], layout=lres[3 * 8 + 5]))
+
+    # ---- (4) l1sched_configure_ts(): which channels get a channel state (the real sched_trx.c on the real tables)
+    cp = [(c, tn) for c in range(128) for tn in range(8)]
+    # (the same timeslot is re-configured with one combination after the other: reconfiguration resets the old states)
+    inp = "".join("%d %d\n" % q for q in cp)
+    env = dict(os.environ, ASAN_OPTIONS="detect_leaks=0")
+    pr = subprocess.run([bins["c11_trxcon_cfg"]], input=inp, stdout=subprocess.PIPE, stderr=subprocess.PIPE, text=True, timeout=900, env=env)
+    clines = pr.stdout.split("\n")
+    if pr.returncode != 0 or len(clines) < len(cp):
+        ctx.oracle_fail("l1sched_configure_ts harness stopped (sanitizer report?) rc=%s" % pr.returncode, dict(stderr=pr.stderr[-2000:], answered=len(clines) - 1),
+                        key="c11-configure-ts-crash")
+    else:
+        cres = [[int(x) for x in l.split()] for l in clines[:len(cp)]]
+        idx = list(range(len(cp)))
+        ctx.correspond("configure-ts", "Mframe", idx, lambda k: "w_c11_cfg_ts %d %d" % cp[k], lambda k: cres[k], show=lambda k: dict(config=cp[k][0], tn=cp[k][1]))
+        for k, (cfg, tn) in enumerate(cp):
+            li = real_lookup(tx, cfg, tn)
+            r = cres[k]
+            ctx.nontrivial(("configure", r[0], len(r) - 1))
+            if li < 0 or not (0 <= li < len(tx["layouts"])) or tx["layouts"][li]["cfg"] != cfg:
+                if r[0] == 0:
+                    ctx.oracle_fail("l1sched_configure_ts accepts a combination without a layout of its own", dict(config=cfg, tn=tn), key="c11-configure-ts-accepts")
+                continue
+            L = tx["layouts"][li]
+            if r[0] != 0:
+                ctx.oracle_fail("l1sched_configure_ts refuses a combination that has a layout (rc=%d)" % r[0], dict(config=cfg, tn=tn, layout=li), key="c11-configure-ts-refuses")
+                continue
+            have = set(r[1:])
+            used = set()
+            for fr in L["frames"][:max(L["period"], 0)]:
+                used.update(c for c in (fr[0], fr[2]) if c != E["L1SCHED_IDLE"])
+            missing = sorted(used - have)
+            if missing:
+                names = {v: n for n, v in E.items()}
+                ctx.oracle_fail("frames of the layout use channels that get no channel state when the timeslot is configured: " + ", ".join(names.get(c, str(c)) for c in missing),
+                                dict(config=cfg, tn=tn, layout=li, name=L.get("name")), key="c11-no-channel-state:layout%d" % li, expected=sorted(used), observed=sorted(have))
 
     # ---- the oracle's copy of the specification table is the model's table
     rows = spec_rows()
